@@ -352,6 +352,7 @@ const PATH_NAMES: [&str; 7] = ["AudioManager::add_sub_track", "AudioManager::add
 fn race_all(ctx: &mut Ctx) {
 	let mut schedules = 0u64;
 	let mut known_hits = 0u64;
+	let mut race_cut = false;
 	for path in 0..7u64 {
 		for n_changes in 1..=2usize {
 			if !ctx.owns("race", path * 2 + n_changes as u64 - 1) {
@@ -373,6 +374,11 @@ fn race_all(ctx: &mut Ctx) {
 						break;
 					}
 				}
+				if schedules % 32 == 0 && !ctx.replaying() && !ctx.time_left(0.6) {
+					ctx.note(&format!("race enumeration for {} stopped by the time budget", PATH_NAMES[path as usize]));
+					race_cut = true;
+					break;
+				}
 				match crate::sched::next_prefix(&res.log) {
 					Some(p) => prefix = p,
 					None => break,
@@ -381,6 +387,7 @@ fn race_all(ctx: &mut Ctx) {
 		}
 	}
 	ctx.count("race_schedules_enumerated", schedules);
+	ctx.count("shards_with_complete_race_enumeration", (!race_cut) as u64);
 	if known_hits > 0 {
 		ctx.count("race_schedules_matching_known_finding", known_hits);
 		ctx.exclude(RACE_KEY);
@@ -774,12 +781,20 @@ pub fn run(ctx: &mut Ctx) {
 	let mut hist_n = 0u64;
 	let mut processed = 0u64;
 	let mut known_hits = 0u64;
+	let mut enumeration_cut = false;
 	'outer: for len in 1..=max_len {
 		let total = N_OPS.pow(len as u32);
 		for code in 0..total {
 			idx += 1;
 			if !ctx.owns("hist", idx) {
 				continue;
+			}
+			// (under ThreadSanitizer a history costs ten times as much: the enumeration is also bounded by half the shard's time
+			// budget; an enumeration that was cut short is recorded as such)
+			if hist_n % 256 == 255 && !ctx.replaying() && !ctx.time_left(0.5) {
+				ctx.note(&format!("exhaustive history enumeration stopped by the time budget at length {} (code {} of {})", len, code, total));
+				enumeration_cut = true;
+				break 'outer;
 			}
 			let ops: Vec<(u64, usize, usize)> = decode_history(code, len).into_iter().enumerate().map(|(k, o)| (o, k + code as usize, 1 + (k * 7 + code as usize) % 40)).collect();
 			ctx.eval();
@@ -837,6 +852,7 @@ pub fn run(ctx: &mut Ctx) {
 		}
 	}
 	ctx.count("histories", hist_n);
+	ctx.count("shards_with_complete_history_enumeration", (!enumeration_cut) as u64);
 	ctx.count("probe_effects_observed_processing", processed);
 	if known_hits > 0 {
 		ctx.count("histories_matching_known_finding", known_hits);
